@@ -308,7 +308,7 @@ fn main() {
         eprintln!("c19: building the wac binary failed:\n{}", String::from_utf8_lossy(&st.stderr));
         std::process::exit(3);
     }
-    let scratch = PathBuf::from(format!("/tmp/c19-{}-{}", std::process::id(), shard));
+    let scratch = small_util::scratch_base().join(format!("c19-{}-{}", std::process::id(), shard));
     let _ = fs::remove_dir_all(&scratch);
     fs::create_dir_all(&scratch).unwrap();
     let mut ctx = Ctx { wac: tdir.join("debug/wac"), scratch: scratch.clone(), intern: Intern::default(), n: 0 };
